@@ -294,6 +294,18 @@ def table():
         ("gridselfassign", ["i"], sized(1, par=lambda s: [[0]], cap=3), never),
         ("gridselfassign", ["i"], sized(1, par=lambda s: [[1]], cap=3), always),
         ("gridfill", ["i"], sized(1, cap=4), always),
+        # extension round 3: parse / options results moved through the combinators
+        ("parsealt", [], no_args(lambda m: [[0], [1], [2]]), always),
+        ("parseopt", [], no_args(lambda m: [[0], [1]]), always),
+        ("parseconv", [], no_args(lambda m: [[0], [1]]), always),
+        ("parsestruct", [], no_args(lambda m: [[0], [1], [2]]), always),
+        ("parsesep", [], no_args(lambda m: [[k] for k in range(m + 2)]), always),
+        ("parselist", [], no_args(lambda m: [[k] for k in range(m + 2)]), never),
+        ("optsarg", [], no_args(lambda m: [[0], [1]]), always),
+        ("optsoptional", [], no_args(lambda m: [[0], [1]]), always),
+        ("optsproduct", [], no_args(lambda m: [[0], [1], [2]]), always),
+        ("optsmany", [], no_args(lambda m: [[k] for k in range(m + 2)]), always),
+        ("optssum", [], no_args(lambda m: [[0], [1]]), always),
         ("eithfirst", [], lambda maxn: [((), list(m)) for ln in range(maxn + 1) for m in itertools.product([0, 1], repeat=ln)], always),
     ]
 
@@ -301,6 +313,8 @@ def table():
 # operations on which the unchanged tree disagrees with the property (notes/C05.md, DEFECT CANDIDATE); run last
 def candidates():
     return [
+        # DEFECT CANDIDATE 2 (notes/C05.md): parse::repetition_plus copies its first result through an initializer_list
+        # ("parserepplus", [], no_args(lambda m: [[k] for k in range(m + 2)]), never),
     ]
 
 
